@@ -351,6 +351,90 @@ let run_am (suite : string) (auth : string) (cc : string) (dir : string) (msg : 
     | _ -> "-" in
   Printf.sprintf "%s %s %s" (show_pstat cstat) (show_pstat sstat) same
 
+(* ---- C15 R cases: an honest peer model whose flights are re-packed into records ------------------------------------ *)
+let msg_name_c2s (o : output) : string = match o with
+  | OCCS -> "CCS"
+  | OHs (MClientHello _) -> "CH" | OHs (MCertificate _) -> "CCERT" | OHs (MClientKeyExchange _) -> "CKX"
+  | OHs (MCertificateVerify _) -> "CV" | OHs (MFinished _) -> "FIN" | _ -> "?"
+let msg_name_s2c (o : output) : string = match o with
+  | OCCS -> "CCS"
+  | OHs (MServerHello _) -> "SH" | OHs (MCertificate _) -> "CERT" | OHs (MServerKeyExchange _) -> "SKX"
+  | OHs MCertificateRequest -> "CR" | OHs MServerHelloDone -> "SHD" | OHs (MNewSessionTicket _) -> "NST"
+  | OHs (MFinished _) -> "FIN" | _ -> "?"
+
+(* one flight "A+B|C|D" over the attacker's outputs -> records; names without a message are skipped *)
+let pack_flight (name_of : output -> string) (outs : output list) (flight : string) : record list =
+  let find nm = List.find_opt (fun o -> name_of o = nm) outs in
+  List.concat_map (fun recs ->
+      let names = String.split_on_char '+' recs in
+      if names = ["CCS"] then (match find "CCS" with Some _ -> [RCCS true] | None -> [RCCS true])
+      else
+        let items = List.concat_map (fun nm -> match find nm with Some (OHs m) -> [HMsg m] | _ -> []) names in
+        if items = [] then [] else [RHs items])
+    (String.split_on_char '|' flight)
+
+let flights (packing : string) : string list = String.split_on_char '/' packing
+let nth_flight fl k = try List.nth fl k with _ -> ""
+
+let run_r (victim : string) (suite : string) (cfgs : string) (chv : string) (packing : string) : string =
+  let cfg = parse_cfg cfgs in
+  let fl = flights packing in
+  match victim with
+  | "sg" ->
+    let cert = if flag cfg "cc" then Some (c_auth, k_auth) else None in
+    let ccfg = { (c08_client ~suite ~cert ~trusted:[n 1; n 2]) with c_cache = flag cfg "tk" } in
+    let scfg = { (c08_server ~auth:(int_of_string (get cfg "auth")) ~certs:genuine ~client_trusted:[n 3]) with
+                 s_tickets = flag cfg "tk" } in
+    let c0 = client_init ccfg in
+    (* first flight: the ClientHello, with the scripted client_version *)
+    let outs0 = List.map (fun o -> match o with
+        | OHs (MClientHello ch) -> OHs (MClientHello { ch with ch_vers = hexn chv }) | o -> o) c0.cs_out in
+    let ((s1, lo1), sstat1) = rfeed (server_step scfg) server_wants_ccs server_init false PRunning
+        (pack_flight msg_name_c2s outs0 (nth_flight fl 0)) in
+    (match sstat1 with
+     | PRunning ->
+       let (c1, cstat1) = feed (client_step ccfg) { c0 with cs_out = [] } PRunning (List.map to_input s1.ss_out) in
+       (match cstat1 with
+        | PRunning ->
+          let ((_, _), sstat2) = rfeed (server_step scfg) server_wants_ccs { s1 with ss_out = [] } lo1 PRunning
+              (pack_flight msg_name_c2s c1.cs_out (nth_flight fl 1) @ [REOF]) in
+          show_pstat sstat2
+        | _ -> "err")    (* the scripted client gives up: the server sees the stream end *)
+     | st -> show_pstat st)
+  | _ ->
+    let cert = if flag cfg "cc" then Some (c_auth, k_auth) else None in
+    let ccfg = { (c08_client ~suite ~cert ~trusted:[n 1; n 2]) with c_cache = flag cfg "tk" } in
+    let scfg = { (c08_server ~auth:(if flag cfg "cr" then 1 else 0) ~certs:genuine ~client_trusted:[n 3]) with
+                 s_tickets = flag cfg "tk" } in
+    let c0 = client_init ccfg in
+    let (s1, sstat1) = feed (server_step scfg) server_init PRunning (List.map to_input c0.cs_out) in
+    (match sstat1 with
+     | PRunning ->
+       let ((c1, lo1), cstat1) = rfeed (client_step ccfg) client_wants_ccs { c0 with cs_out = [] } false PRunning
+           (pack_flight msg_name_s2c s1.ss_out (nth_flight fl 0)) in
+       (match cstat1 with
+        | PRunning ->
+          let (s2, sstat2) = feed (server_step scfg) { s1 with ss_out = [] } PRunning (List.map to_input c1.cs_out) in
+          (match sstat2 with
+           | PDone | PRunning ->
+             let ((_, _), cstat2) = rfeed (client_step ccfg) client_wants_ccs { c1 with cs_out = [] } lo1 PRunning
+                 (pack_flight msg_name_s2c s2.ss_out (nth_flight fl 1) @ [REOF]) in
+             show_pstat cstat2
+           | _ -> "err")
+        | st -> show_pstat st)
+     | _ -> "err")
+
+(* ---- C08 AN cases: server-name matching ------------------------------------------------------------------------------ *)
+let bytes_of_string (s : string) : n list = List.init (String.length s) (fun i -> n (Char.code s.[i]))
+
+let run_an (suite : string) (pattern : string) (servername : string) : string =
+  let ok = match_hostnames (bytes_of_string pattern) (bytes_of_string servername) in
+  (* both GM certificates carry the name: Verify returns a chain for them iff the name matches *)
+  let c = c08_client ~suite ~cert:None ~trusted:(if ok then [n 1; n 2] else []) in
+  let s = c08_server ~auth:0 ~certs:genuine ~client_trusted:[n 3] in
+  let ((_, cstat), _) = pair_run_t id_t id_t c s in
+  show_pstat cstat
+
 (* ---- parsers ------------------------------------------------------------------------------------------------------ *)
 let hexlist_dot (l : n list list) : string =
   match l with
@@ -365,6 +449,8 @@ let handle (f : string array) : string =
   | "S" -> run_script f.(2) f.(3) f.(4)
   | "H" -> run_pair f.(2) f.(3)
   | "V" -> run_vgate f.(2) f.(3) f.(4)
+  | "R" -> run_r f.(2) f.(3) f.(4) f.(5) f.(6)
+  | "AN" -> run_an f.(2) f.(4) f.(5)
   | "AS" -> run_as f.(2) f.(3) f.(4)
   | "AC" -> run_ac f.(2) f.(3) f.(4)
   | "AM" -> run_am f.(2) f.(3) f.(4) f.(5) f.(6) f.(8)
